@@ -31,9 +31,14 @@ NUMBERS_INVALID = ['i:0', 'i:-3', 'f:0', 'f:-3/2', 'nan', 'inf', '-inf', 'np:f64
 NON_NUMBERS = ['str:abc', 'str:5', 'str:', 'bytes:a', 'None', 'list:1,2', 'list:', 'tuple:1', 'arr0:3', 'arr1:1,2',
                'arr1:4', 'arr2', 'callable']
 ANGLES_VALID = ['q:5:deg', 'q:2:deg', 'q:10:deg', 'q:3:arcmin', 'q:7:arcmin', 'q:30:arcsec', 'q:1/2:rad', 'angle:3:deg',
-                'q0d:2:rad']
+                'q0d:2:rad',
+                # every unit astropy calls an angle, incl. composite ones, must still be accepted
+                'q:5:mas', 'q:2:hourangle', 'q:1/4:cycle', 'q:3:deg2 / arcsec']
 QUANT_OTHER = ['q:0:deg', 'q:-1:arcsec', 'q:nan:deg', 'q:inf:deg', 'q:-inf:deg', 'q:5:pix', 'q:3:m', 'q:4:', 'q:2:s',
-               'qarr:1,2:deg', 'qarr:3:deg']
+               'qarr:1,2:deg', 'qarr:3:deg',
+               # physical types whose NAME contains / is dimensionally related to the accepted one
+               'q:2:sr', 'q:5:deg2', 'q:30:arcsec2', 'q:7:arcmin2', 'q:1/2:rad / s', 'q:3:deg / yr', 'q:2:rad / s2',
+               'q:4:1 / deg', 'q:3:deg m', 'q:50:%', 'q:3:pix2', 'q:2:rad2 / sr', 'q:2:Hz', 'qarr:1,2:sr']
 PIX = ['pix:1,2', 'pix:3,-4', 'pix:nan,1', 'pixarr:1,2,3;4,5,6', 'pixarr:0,4,4,0;0,0,3,3', 'pixarr:1;2', 'pix2d']
 SKY = ['sky:1,2', 'sky:10,-20', 'skygal:1,2', 'skyarr:1,2,3;4,5,6', 'skyarr:1;2', 'sky2d']
 REGS = ['reg:circleP', 'reg:circleS', 'reg:compP']
@@ -190,8 +195,8 @@ def _describe(v):
     if v is None:
         return {'k': 'pyNone', 'sz': 0, 't': 'None'}
     if isinstance(v, u.Quantity):
-        pt = str(v.unit.physical_type)
-        ph = pt if pt in ('angle', 'length', 'dimensionless') else 'other'
+        pt = v.unit.physical_type
+        ph = next((n for n in ('angle', 'length', 'dimensionless') if pt == n), 'other')
         n = '0'
         if v.size == 1:
             n = enc(v.to_value(u.deg).item() if ph == 'angle' else np.asarray(v.value).item())
@@ -308,7 +313,7 @@ VALID_FOR = {
     'PositiveScalar': ['i:5', 'f:5/2', 'f:7', 'np:f64:2', 'i:10', 'i:2'],
     'ScalarSkyCoord': ['sky:1,2', 'sky:10,-20', 'skygal:1,2'],
     'OneDSkyCoord': ['skyarr:1,2,3;4,5,6'],
-    'ScalarAngle': ['q:5:deg', 'q:0:deg', 'q:1/2:rad', 'angle:3:deg', 'q:-1:arcsec'],
+    'ScalarAngle': ['q:5:deg', 'q:0:deg', 'q:1/2:rad', 'angle:3:deg', 'q:-1:arcsec', 'q:2:hourangle'],
     'PositiveScalarAngle': ['q:5:deg', 'q:2:deg', 'q:10:deg', 'q:3:arcmin', 'q:7:arcmin', 'q:30:arcsec', 'q:1/2:rad'],
     'RegionType:PixelRegion': ['reg:circleP', 'reg:compP'],
     'RegionType:SkyRegion': ['reg:circleS'],
@@ -368,7 +373,8 @@ def _finite_pos_number(v):
 
 def _angle_q(v):
     import astropy.units as u
-    return isinstance(v, u.Quantity) and v.shape == () and v.unit.physical_type == 'angle'
+    # an angular quantity, from first principles: convertible to radians (no equivalencies)
+    return isinstance(v, u.Quantity) and v.shape == () and v.unit.is_equivalent(u.rad)
 
 
 def in_domain(descr, v):
